@@ -6,6 +6,7 @@ import (
 	"context"
 	"errors"
 	"strconv"
+	"sync"
 
 	"github.com/go-kit/log"
 	consul "github.com/hashicorp/consul/api"
@@ -89,6 +90,7 @@ var vfErrRetry = errors.New("try again")
 
 func HarnessC07_ConsulCAS() {
 	m := &mockKV{kvps: map[string]*consul.KVPair{}, logger: log.NewNopLogger()}
+	m.cond = sync.NewCond(&m.mtx)
 	start := vfU64("start_index")
 	vfAssume(vfAnd(start >= 1, start <= 1<<62))
 	m.current = start
@@ -154,4 +156,57 @@ func HarnessC07_ConsulCAS() {
 	} else {
 		vfAssert(w.lastValue == "", "C07 no successful update is lost")
 	}
+}
+
+
+// HarnessC07_ConsulConcurrent: two callers increment the same key at the same
+// time; a preemption may occur before any mutex acquisition of the store, so
+// the check-and-write of the store's compare-and-swap is exercised for
+// atomicity. Afterwards the value counts exactly the successful calls.
+func init() { vfRegisterBubble("HarnessC07_ConsulConcurrent", HarnessC07_ConsulConcurrent) }
+
+func HarnessC07_ConsulConcurrent() {
+	m := &mockKV{kvps: map[string]*consul.KVPair{}, logger: log.NewNopLogger()}
+	m.cond = sync.NewCond(&m.mtx)
+	start := vfU64("start_index")
+	vfAssume(vfAnd(start >= 1, start <= 1<<62))
+	m.current = start
+	c := &Client{kv: m, codec: vfIntCodec{}, cfg: Config{MaxCasRetries: 3}, logger: log.NewNopLogger(), consulMetrics: newConsulMetrics(nil)}
+	if vfChoice("preexisting", 2) == 1 {
+		m.Put(&consul.KVPair{Key: "key", Value: []byte("0")}, nil)
+	}
+	inc := func(in interface{}) (interface{}, bool, error) {
+		v := 0
+		if in != nil {
+			v = in.(int)
+		}
+		return v + 1, true, nil
+	}
+	var mu sync.Mutex
+	okCalls, done := 0, 0
+	n := vfParam("callers", 2)
+	for i := 0; i < n; i++ {
+		go func() {
+			err := c.cas(context.Background(), "key", inc)
+			mu.Lock()
+			if err == nil {
+				okCalls++
+			}
+			done++
+			mu.Unlock()
+		}()
+	}
+	vfQuiesce()
+	mu.Lock()
+	d, ok := done, okCalls
+	mu.Unlock()
+	vfAssert(d == n, "C07 concurrent calls finish")
+	cur, _, _ := m.Get("key", &consul.QueryOptions{})
+	got := 0
+	if cur != nil {
+		got, _ = strconv.Atoi(string(cur.Value))
+	}
+	vfObserve("ok", ok)
+	vfAssert(got == ok, "C07 the final value reflects exactly the successful calls, in some order (no update is lost or applied twice)")
+	vfCover("c07-consul-concurrent-done")
 }
